@@ -18,6 +18,7 @@ def validate(workdir, module, traces, *, constants=None, invariants=(), properti
     accepted = 0
     rejected = []
     inv_fail = []
+    _budget[0] = 12
     for off in range(0, len(traces), chunk):
         part = traces[off:off + chunk]
         a, r, f = _validate_chunk(workdir, module, part, constants, invariants, properties, spec, timeout, extra_cfg, extra_steps)
@@ -29,6 +30,7 @@ def validate(workdir, module, traces, *, constants=None, invariants=(), properti
 
 
 validate.last_invariant_failures = []
+_budget = [12]
 
 
 def _validate_chunk(workdir, module, traces, constants, invariants, properties, spec, timeout, extra_cfg, extra_steps=0):
@@ -55,7 +57,10 @@ def _validate_chunk(workdir, module, traces, constants, invariants, properties, 
             if isinstance(st, dict) and "tid" in st:
                 tid = st["tid"]
         inv_fail.append(((tid or 1) - 1, res.violated, tlaval.to_json(res.trace[-1][1]) if res.trace else None))
-        # validate the remaining traces without the failing one
+        # validate the remaining traces without the failing one (a dozen failures are a verdict: the rest is then left unjudged)
+        _budget[0] -= 1
+        if _budget[0] <= 0:
+            return 0, [], inv_fail
         rest = [t for i, t in enumerate(traces) if i != (tid or 1) - 1]
         a, r, f = _validate_chunk(workdir, module, rest, constants, invariants, properties, spec, timeout, extra_cfg, extra_steps)
         fix = lambda i: i if i < (tid or 1) - 1 else i + 1  # noqa
